@@ -1,7 +1,8 @@
 """Process-network model for C07/C08 (DESIGN.md 2.5).
 
 A network = channel kinds + one straight-line script of (send|recv|close, channel)
-per fiber (fiber 0 is main). The model gives Go-like channel semantics restricted
+per fiber (fiber 0 is main); ('l', j) launches fiber j (fibers no script launches are
+launched by main before its first operation). The model gives Go-like channel semantics restricted
 to what C07 states; explore() is an explicit-state search over ALL schedules;
 check_trace() replays the VM's observed completion lines against the model
 (trace inclusion, offers are silent steps) and checks the terminal report.
@@ -48,13 +49,20 @@ def val(f, i):
     return "v%d_%d" % (f, i)
 
 
-def body(f, script, wrap=None):
+def started_at_init(fibers):
+    later = {c for s in fibers for (op, c) in s if op == 'l'}
+    return frozenset(f for f in range(len(fibers)) if f not in later)
+
+
+def body(f, script, wrap=None, params=""):
     out = []
     for i, (op, c) in enumerate(script):
         if op == 's':
             st = "c%d <- '%s'; print('%d %d s');" % (c, val(f, i), f, i)
         elif op == 'r':
             st = "let x%d = <- c%d; print('%d %d r ' + (x%d == nil ? 'nil' : x%d));" % (i, c, f, i, i, i)
+        elif op == 'l':
+            st = "launch f%d(%s); print('%d %d l');" % (c, params, f, i)
         else:
             st = "c%d.close(); print('%d %d c');" % (c, f, i)
         if wrap == i:
@@ -72,27 +80,32 @@ def program(kinds, fibers, launch_late=False, wrap=None):
     for f, s in enumerate(fibers):
         if f == 0:
             continue
-        L.append("fn f%d(%s) { %s }" % (f, params, body(f, s, wrap[1] if wrap and wrap[0] == f else None)))
-    launches = ["launch f%d(%s);" % (f, params) for f in range(1, len(fibers))]
+        L.append("fn f%d(%s) { %s }" % (f, params, body(f, s, wrap[1] if wrap and wrap[0] == f else None, params)))
+    launches = ["launch f%d(%s);" % (f, params) for f in range(1, len(fibers)) if f in started_at_init(fibers)]
     L += launches
-    L.append(body(0, fibers[0], wrap[1] if wrap and wrap[0] == 0 else None))
+    L.append(body(0, fibers[0], wrap[1] if wrap and wrap[0] == 0 else None, params))
     L.append("print('0 end');")
     return '\n'.join(L)
 
 
 def init(kinds, fibers):
-    return (tuple(0 for _ in fibers), tuple(((), False, None) for _ in kinds), frozenset())
+    return (tuple(0 for _ in fibers), tuple(((), False, None) for _ in kinds), frozenset(), started_at_init(fibers))
 
 
 def steps(kinds, fibers, st):
     """yield (event, newstate, reason). event None = silent offer; (f, i, kind, value) = visible completion; ('err', f, i) = raise.
     reason: 'closed' the step is possible because the channel is closed, 'released' completion of a sync send whose value was taken, else 'plain'"""
-    pcs, chans, rel = st
+    pcs, chans, rel, started = st
     for f, s in enumerate(fibers):
         i = pcs[f]
-        if i >= len(s):
+        if i >= len(s) or f not in started:
             continue
         op, c = s[i]
+        if op == 'l':
+            np = list(pcs)
+            np[f] += 1
+            yield (f, i, 'l', None), (tuple(np), chans, rel, started | {c}), 'plain'
+            continue
         q, closed, offer = chans[c]
 
         def upd(newchan, adv=True):
@@ -101,20 +114,20 @@ def steps(kinds, fibers, st):
             np = list(pcs)
             if adv:
                 np[f] += 1
-            return (tuple(np), tuple(nc), rel)
+            return (tuple(np), tuple(nc), rel, started)
         if op == 's':
             if kinds[c] == 'sync':
                 if f in rel:
                     np = list(pcs)
                     np[f] += 1
-                    yield (f, i, 's', None), (tuple(np), chans, rel - {f}), 'released'
+                    yield (f, i, 's', None), (tuple(np), chans, rel - {f}, started), 'released'
                     continue
                 if offer is not None and offer[0] == f:
                     continue
                 if closed:
                     yield ('err', f, i), upd((q, closed, offer), False), 'closed'
                 elif offer is None:
-                    yield None, upd((q, closed, (f, val(f, i))), False), 'plain'
+                    yield None, upd((q, closed, (f, val(f, i))), False), 'offer'
             else:
                 if closed:
                     yield ('err', f, i), upd((q, closed, offer), False), 'closed'
@@ -124,7 +137,7 @@ def steps(kinds, fibers, st):
             if kinds[c] == 'sync':
                 if offer is not None:
                     n = upd((q, closed, None))
-                    yield (f, i, 'r', offer[1]), (n[0], n[1], rel | {offer[0]}), 'syncrecv'
+                    yield (f, i, 'r', offer[1]), (n[0], n[1], rel | {offer[0]}, started), 'syncrecv'
                 elif closed:
                     yield (f, i, 'r', 'nil'), upd((q, closed, offer)), 'closed'
             else:
@@ -219,7 +232,8 @@ def check_trace(kinds, fibers, cls, lines):
             def every(w):
                 return all(any(why == w for ev, n, why in steps(kinds, fibers, s)) for s in S)
             return 'spurious-deadlock', ('released' if all_rel else 'closed' if every('closed') else 'bufrecv' if every('bufrecv') else
-                                         'bufsend' if every('bufsend') else 'syncrecv' if every('syncrecv') else 'other')
+                                         'bufsend' if every('bufsend') else 'syncrecv' if every('syncrecv') else
+                                         'mixed' if all(any(why != 'plain' for ev, n, why in steps(kinds, fibers, s)) for s in S) else 'other')
     elif cls == 'runtime_error':
         ok = any(ev and ev[0] == 'err' for s in S for ev, n, _ in steps(kinds, fibers, s))
         if not ok:
